@@ -407,6 +407,35 @@ theorem fileOf_roundtrip (fs : List Frame) (file : Bytes) (hwf : ∀ f ∈ fs, f
     subst this
     exact ⟨_, hp, rfl, rfl, rfl, rfl, rfl, rfl, rfl, rfl, hv⟩
 
+
+/-- … for the TLS export of `Pipeline` (`fileOf`): the reader gets back one packet per `OutPkt`, in order, at its time. -/
+theorem fileOf_roundtrip_outpkts (pkts : List Pipeline.OutPkt) (file : Bytes)
+    (hwf : ∀ p ∈ pkts, (Frame.ofOutPkt p).WF) (h : fileOf pkts = .ok file) :
+    ∃ bs : List Bytes, bs.length = pkts.length ∧
+      Container.read false file = .ok ((pkts.zip bs).map fun pb => Item.pkt ⟨pb.1.ts, 10 ^ 6, 0, false⟩ pb.2) ∧
+      ∀ pb ∈ pkts.zip bs, serialize pb.1 = .ok pb.2 := by
+  obtain ⟨bs, hlen, hread, hall⟩ := fileOf_roundtrip (pkts.map Frame.ofOutPkt) file
+    (by intro f hf; simp only [List.mem_map] at hf; obtain ⟨p, hp, rfl⟩ := hf; exact hwf p hp) h
+  refine ⟨bs, by simpa using hlen, ?_, ?_⟩
+  · rw [hread, List.zip_map_left, List.map_map]; rfl
+  · intro pb hpb
+    have : (Frame.ofOutPkt pb.1, pb.2) ∈ (pkts.map Frame.ofOutPkt).zip bs := by
+      rw [List.zip_map_left]
+      exact List.mem_map.mpr ⟨pb, hpb, rfl⟩
+    exact (hall _ this).1
+
+/-- A fact about dpkt worth knowing (not a defect of the export for TLS: records are at most 2^14 + 2048 bytes): the
+    writer announces snaplen 20000 in the interface description but does not clip or refuse longer packets — the
+    captured length it writes is the frame length (`epbBody`), so a QUIC export of a jumbo datagram has EPBs longer
+    than the announced snaplen. -/
+theorem snaplen_is_not_a_limit (data : Bytes) (h : data.length = 20001) : ∃ f, pcapng [(data, 0)] = .ok f :=
+  (pcapng_ok_iff _).mpr (by
+    intro p hp
+    simp only [List.mem_singleton] at hp
+    subst hp
+    simp only [Writable, h]
+    omega)
+
 end
 
 /-! ### non-vacuity: concrete frames and files (the expected bytes are what scapy 2.7.0 / dpkt 1.9.8 produced) -/
@@ -470,10 +499,11 @@ example : (walk exFile).map (·.map (·.1)) = some [0x0A0D0D0A, 1, 6, 6] := by d
     above 65535 (struct.error) — while the same segment still fits IPv6 —, a time stamp of 2^64 µs (struct.error) -/
 example : serializeFrame { exTcp4 with src := ⟨[10, 0, 0, 1], 65536⟩ } = .error .value := by decide +kernel
 example : serializeFrame { exTcp4 with l4 := .tcp 0x18 4294967296 0 } = .error .value := by decide +kernel
-example : ¬ ∃ b, serializeFrame { exTcp4 with payload := List.replicate 65496 0 } = .ok b := by
-  rw [serialize_ok_iff]; simp only [exTcp4, List.length_replicate]; decide
-example : ∃ b, serializeFrame { exUdp6 with l4 := .tcp 0x18 1 1, payload := List.replicate 65515 0 } = .ok b := by
-  rw [serialize_ok_iff]; simp only [exUdp6, List.length_replicate]; decide
+example (pay : Bytes) (h : pay.length = 65496) : ¬ ∃ b, serializeFrame { exTcp4 with payload := pay } = .ok b := by
+  rw [serialize_ok_iff]; simp only [exTcp4, h]; simp
+example (pay : Bytes) (h : pay.length = 65515) :
+    ∃ b, serializeFrame { exUdp6 with l4 := .tcp 0x18 1 1, payload := pay } = .ok b := by
+  rw [serialize_ok_iff]; simp only [exUdp6, h]; simp
 example : pcapng [(exTcp4Bytes, 2 ^ 64)] = .error .struct := by decide +kernel
 end
 
